@@ -37,7 +37,9 @@ Proof. exact find_hits_scalar_exactly_maximal_runs. Qed.
 Print Assumptions C18_find_hits_scalar_exactly_maximal_runs.
 
 (* record_links: previous_record[i] = j and next_record[j] = i exactly when j is the latest earlier
-   record of i's channel, i is not a first fragment, and i starts where j's buffer ends *)
+   record of i's channel, i is not a first fragment, and i starts where j's buffer ends.
+   Full statement: the only hypothesis is that channels are non-negative (rec_wf r := 0 <= r_ch r;
+   the code raises ValueError otherwise).  Holds for the code repaired by /repo d422fcc. *)
 Theorem C18_record_links_spec : forall rs,
   Forall rec_wf rs ->
   exists prev next, record_links rs = Ok (prev, next) /\
@@ -49,19 +51,16 @@ Theorem C18_record_links_spec : forall rs,
 Proof. exact record_links_spec. Qed.
 Print Assumptions C18_record_links_spec.
 
-(* the statement without the "no continuing fragment at time 0" part of rec_wf ... *)
-Definition C18_full_record_links_spec : Prop := forall rs,
-  Forall (fun r => 0 <= r_ch r) rs ->
-  exists prev next, record_links rs = Ok (prev, next) /\
-    (forall j, 0 <= j < zlen rs -> forall i, 0 <= i -> (nthZ next j = i <-> linked (spr_of rs) rs j i)).
-(* ... is refuted by the faithful model (witness replayed on the real code by the harness unit
-   record_links_time0; known finding) *)
-Theorem C18_record_links_time0_refuted :
+(* Documentation: the loop of the pinned snapshot (record_links_pinned, before fix d422fcc: no
+   `last_i != NO_RECORD_LINK` guard) did NOT satisfy the statement above: a continuing fragment at
+   time 0, first of its channel, was written into next_record[-1].  The harness unit
+   record_links_time0 replays this witness on the real code on every run. *)
+Theorem C18_record_links_time0_refuted_pinned :
   exists rs prev next j i,
-    Forall (fun r => 0 <= r_ch r) rs /\ record_links rs = Ok (prev, next) /\
+    Forall (fun r => 0 <= r_ch r) rs /\ record_links_pinned rs = Ok (prev, next) /\
     0 <= j < zlen rs /\ 0 <= i /\ nthZ next j = i /\ ~ linked (spr_of rs) rs j i.
 Proof. exact record_links_time0_witness. Qed.
-Print Assumptions C18_record_links_time0_refuted.
+Print Assumptions C18_record_links_time0_refuted_pinned.
 
 (* cut_outside_hits: every output sample equals the input sample if it lies within the left /
    right extension of some hit (in the hit's record below its length, or in the linked previous /
